@@ -324,7 +324,7 @@ def run_mgs(ctx):
     for it in range(ctx.n(12, 80)):
         nums = sorted({rng.randint(1, 12) for _ in range(rng.randint(2, 5))})
         total = sum(rng.sample(nums, min(len(nums), rng.randint(1, len(nums))))) + rng.choice([0, 0, 1, 3])
-        lb = rng.choice([1, 1, 2])
+        lb = rng.choice([1, 1, 2, 0])
         def one(plan):
             with inject.SolverFaults(fp, plan) as sf:
                 m = fp.MinGenSet(list(nums), total=total, weight_type=int, lowerbound=lb, solver_options={"time_limit": 100})
@@ -342,9 +342,10 @@ def run_mgs(ctx):
         hi = ctx.model_hi("MinGenSet", m)
         for plan in [{}] + [{j: st} for j in range(n) for st in INCONCLUSIVE[:3]]:
             m, ret, solved, ans, sf = one(plan)
-            trace = [(lb + idx, st) for (idx, st) in sf.log]
+            lo = max(lb, 1)                  # the loop starts at max(lowerbound, 1) (fix: the model for k = 0 is empty)
+            trace = [(lo + idx, st) for (idx, st) in sf.log]
             kind = ctx.model_kind("MinGenSet")
-            model = ctx.driver.call({"op": "search", "kind": kind, "lo": lb, "hi": hi, "script": [st for _, st in trace]})
+            model = ctx.driver.call({"op": "search", "kind": kind, "lo": lo, "hi": hi, "script": [st for _, st in trace]})
             case = {"class": "MinGenSet", "numbers": nums, "total": total, "lowerbound": lb,
                     "plan": {str(k): v for k, v in plan.items()}, "trace": trace, "solved": solved, "answer": ans}
             ctx.rep.count("K3.MinGenSet", case, nontrivial=bool(plan) or len(trace) > 1, hist=["MinGenSet"] + list(plan.values()))
